@@ -213,6 +213,9 @@ def call_placer(name, seed, prob, vr, nets, machine, cs):
         from rig.place_and_route.place.sa.c_kernel import CKernel
     except ImportError:
         return None
+    from harness import c02_variants
+    if c02_variants.too_big_for_c(prob):
+        return None                     # the C kernel stores quantities in C ints
     return c02.outcome(lambda: sa_alg.place(vr, nets, machine, cs, effort=prob["effort"],
                                             random=_random.Random(seed), on_temperature_change=on_temp,
                                             kernel=CKernel))
